@@ -244,547 +244,568 @@ lastPx @calculatedFrom( // c170
 } // c174a
   // c174b
 ")).
-Eval vm_compute in ("<<<M1810>>>" ++ check (runes_of_ascii "// top
-options {
-    LittleEndian = false;// c5
-    FixedStringPadChar = ' ';
-    // c9
-}// c10a
-
-// c10b
-packet Fill {
-    // c13
-    InFlags6 {
-        // c15
-        repeat u64 count,
-    },// c21a
-    // c21b
-    char[8] price,
-    repeat char[2] lastPx,
-    // c32
-    char[] count,
-}// c36
-
-packet Quote {
-    // c39
-    char[] Qty,
-    int32 sym,
-    // c45
-    zchar[9] Flags,
-    int8 tag7,
-    // c53
-    char[7] count,// c58a
-    // c58b
-}// c59a
-
-// c59b
-packet Cancel {
-    string Acct,
-    @rightPad( // c67
-    '\x00' )
-    // c69
-    char[2] Note,// c74a
-    // c74b
-    zchar[5] Side2,
-    // c79
-}// c80a
-
-// c80b
-packet Trade {
-    repeat Quote,
-    // c86
-    Fill,
-    // c88
-    repeat i64 Side2,
-    // c92
-    uint16 Tail,
-    zchar[7] OrderId,// c100
-}
-
-// c101
-root packet Party {
-    repeat InLastpx79 {
-        // c108a
-        // c108b
-        char[12] Px,
-        int8 Tail,
-    },
-    f32 count,
-    // c121
-    repeat u8 Note,
-    // c125
-    Trade,// c127a
-    // c127b
-    f64 venue,// c130
-    @rightPad( // c132
-    '\x00' )
-    char[11] tag7,
-    u16 Px,// c142a
-    // c142b
-    u32 Side2 @lengthOf(Body),
-    match Px as Body {
-        [48, 188] : Fill,
-        // c161
-        190 : Trade,
-        160 : Quote,
-        // c169
-        85 : Cancel,
-    },
-    // c175
-}
-// c176")).
-Eval vm_compute in ("<<<M103>>>" ++ check (runes_of_ascii "packet x { }
-options
-/// triple
-// c
-{ Packet =string Packet =
-    // a // b
-    ' 'zchar = false ;
-matchKey
-    =
-    false }	packet
-f32a
-// packet A { u8 x, }
-// " ++ [128512]%N ++ runes_of_ascii " emoji
-{ int64 options1@calculatedFrom(
-    ""packet"" ) `// not a comment` ,
-Z9_ { charz	{ match	BodyLength	as trueish{ ""\" ++ [233]%N ++ runes_of_ascii """ :
-    charz , 65535: roots,
-    [
-4294967296 //x
-, ""a\""b""
-    // @lengthOf(
-    , ""abc"" ]:
-    f32a ,	""\" ++ [233]%N ++ runes_of_ascii """	:
-//x
-// " ++ [128512]%N ++ runes_of_ascii " emoji
-int
-    // packet A { u8 x, }
-    ""x y"" //
-: u8x }, repeat int8 u , repeat	_x	{ msg_type `100% of %d` ,
-    metadata
-`crlf
-line`  ,
-f32
-roots  , char[]f32a @lengthOf( Pad )
-,// c
-}
-,
-} ,
-    },match
-    T
-as  calculatedFrom {
-[0,""" ++ [128512]%N ++ runes_of_ascii """ ]
-:// @lengthOf(
-Pad// packet A { u8 x, }
-[""""  , ""x y""
-    , """ ++ [233]%N ++ runes_of_ascii "t" ++ [233]%N ++ runes_of_ascii """ , ""a\""b""
-    , 4294967296 , """ ++ [28040; 24687]%N ++ runes_of_ascii """  ]:o
-[ 42
-    ]//
-: float , }
-,  match zchar as _x	{
-    ""`tick`""
-    // " ++ [27880; 37322]%N ++ runes_of_ascii "
-    : packetx , },
-    // 50% %s
-    repeat
-// c
-// `tick` ""quote"" 'q'
-As
-    // " ++ [27880; 37322]%N ++ runes_of_ascii "
-    { int @lengthOf( msg_type	)
-    , i64 roots`line1
-line2`
-    // `tick` ""quote"" 'q'
-    , // c
-repeat u16 Packet `" ++ [233]%N ++ runes_of_ascii "`
-, f64 charz	, } , int32	i8i8 `say ""hi""` ,
-}")).
-Eval vm_compute in ("<<<M92>>>" ++ check (runes_of_ascii "packet As
-{i32 x_y_z
-, match
-    /// triple
-    As  as leftPad{
-    ""// no comment"" :// 50% %s
-repeatCount ,// 50% %s
-[ 3,
-    3
-    ,
-    """ ++ [233]%N ++ runes_of_ascii "t" ++ [233]%N ++ runes_of_ascii """ ]: charz
-,
-""// no comment"" : f32a 10 :u,} , uint64 len
-    //
-    , x
-    , @lengthOf(float /// triple
-)	repeat i8i8 { repeat pack,
-    float32
-Packet,
-repeat T Z9_ ,// trailing space 
-i8i8 ,
-}
-, char
-rootA
-,
+Eval vm_compute in ("<<<M1668>>>" ++ check (runes_of_ascii "packet falsey {
+    @leftPad()
+    int8 uint8x,
+    zchar[10] matchKey,
     // c
-    float , _x // " ++ [128512]%N ++ runes_of_ascii " emoji
-@calculatedFrom( ""x y"") , }
-MetaData//
-Z9_	{u8x //x
-BodyLength, uint32
-x //	t
-, a1 Header ,  calculatedFrom Pad`a\` //
-, char  falsey`it's`, rootA Foo ,
-    } root packet repeatCount {@leftPad  ( ' ')
-zchar `{ , }` ,
-@tag(42 )
-match tag as Logon { 007 : float ,
-[1
-    ] : Packet ,  [
-// `tick` ""quote"" 'q'
-// packet A { u8 x, }
-0 ] :
-    repeatCount
-, [  ""a	b""	, 10 ,""packet""	] : o
+    repeat matchKey {
+        repeat i8 matchKey,
+        a1 @calculatedFrom(""\n"") `two words`,
     },
-    f32a`100% of %d` ,// @lengthOf(
-@calculatedFrom(// c
-""\n"" ) @lengthOf(
-    body) repeat
-    char[] calculatedFrom ``// " ++ [128512]%N ++ runes_of_ascii " emoji
-,	pack,
+    a1 {
+        char[] a1,
+        char x_y_z,
+        zchar[65535] len `u8 x,`,
+    },
+    repeat MetaDataX {
+        repeat leftPad pack,
+        string i8i8 `say ""hi""`,
+    },
+    // " ++ [27880; 37322]%N ++ runes_of_ascii "
+    // @lengthOf(
+    @leftPad('0')
+    @lengthOf(BodyLength)
+    @rightPad(' ')
+    char[] charz,
+    @lengthOf(i8i8)
+    @calculatedFrom(""CRC32"")
+    @lengthOf(T)
+    metadata,// 50% %s
 }
-")).
-Eval vm_compute in ("<<<M1645>>>" ++ check (runes_of_ascii "
+
+packet x {
+    @tag(0123456789)
+    match tag as Pad {
+        [
+            ""\" ++ [233]%N ++ runes_of_ascii """, ""a	b"", ""a\\"", ""{,}"", 007,
+            007, 0123456789
+        ] : options1,
+    },
+    @leftPad()
+    @lengthOf(charz)
+    @tag(42)
+    o {
+        i32 msg_type @lengthOf(A) ``,
+        zchar[1] charz,
+        i8 packetx `tab	here`,
+        repeat crc rootA,
+    },//	t
+    repeat uint8x asx,
+    repeat char[] Foo,
+    repeat zchar[0123456789] u128,
+    match uint8x as _x {
+        ""packet"" : f32a,
+        255 : roots,
+        [
+            """ ++ [28040; 24687]%N ++ runes_of_ascii """, 0123456789, ""CRC32"", 0, 1,
+            255
+        ] : Packet,
+        ""`tick`"" : metadata,
+        ""x y"" : rootA,
+    },
+    _x @lengthOf(crc),
+    @lengthOf(Logon)
+    repeat Packet options1,
+    match trueish as lengthOf {
+        65535 : float,
+    },
+    @tag(65535)
+    lengthOf @lengthOf(a1) `tab	here`,
+}")).
+Eval vm_compute in ("<<<M1370>>>" ++ check (runes_of_ascii "// top
 options
-    {
-_x =
-
-    '0' 
-    // a // b
-
-// packet A { u8 x, }
-	;
-    Logon
-
-=
-false 
-} packet
-A
-    { } packet //
-  Logon
-{ 
-@leftPad(
-	' '
-)
-    repeat
-	repeatCount
-	{
-
-stringy
-
-    @lengthOf( 
-  // " ++ [27880; 37322]%N ++ runes_of_ascii "
-// trailing space 
-
-	len // @lengthOf(
-)	`say ""hi""` ,
-
-repeat metadata
-`u8 x,`
-
-,  match
-	x	as 
-int
-    {[""`tick`"" , 7
-
-] // trailing space 
-		:
-
-    BodyLength,  255 :packetx
-42	// " ++ [128512]%N ++ runes_of_ascii " emoji
-    :
-    _x,	}
-
-, } ,
-@rightPad ('0'
-	) @leftPad ( ' ' )
-@tag(	65535
-    )
-Header
-
-    `{ , }`
-
-    , int16  // trailing space 
-  stringy @lengthOf( // " ++ [128512]%N ++ runes_of_ascii " emoji
-	  calculatedFrom
-
-)
-
-    , repeat  MetaDataX
-{ 
-x_y_z 
-, repeat 	 //
-calculatedFrom o
-
-    `doc`
-	,string_
-    repeatCount 
-,
-rootA
-
-{
-repeatCount  @calculatedFrom( ""\" ++ [233]%N ++ runes_of_ascii """) `tab	here` ,
-}  ,	}
-, } ")).
-Eval vm_compute in ("<<<M1323>>>" ++ check (runes_of_ascii "// top
-options // c0
+    // c0
 { // c1a
   // c1b
-FixedStringPadChar
+LittleEndian
     // c2
-= // c3
-'0'
-    // c4
-; // c5a
-  // c5b
-} packet // c7a
-  // c7b
-Q
-    // c8
-{ // c9a
-  // c9b
-zchar[ // c10a
-  // c10b
-4 // c11a
-  // c11b
-] // c12
-z // c13a
-  // c13b
-, // c14
-@rightPad // c15
-( // c16a
+= // c3a
+  // c3b
+true // c4
+; ArrayPrefixLenType = u32 ;
+    // c9
+FixedStringPadChar // c10
+= ' '
+    // c12
+; } packet Order // c16a
   // c16b
-'\x00' // c17
-) char[ 3 // c20
-]
-    // c21
-n
-    // c22
-, // c23a
-  // c23b
-char[ // c24a
+{
+    // c17
+char[ 5 ] seqNo // c21a
+  // c21b
+, // c22
+uint8 Px // c24a
   // c24b
-5
-    // c25
-] // c26
-d // c27
-, // c28a
-  // c28b
-} // c29a
-  // c29b
-root packet R // c32
-{ // c33a
-  // c33b
-Q
-    // c34
+, } // c26
+packet // c27a
+  // c27b
+Logon
+    // c28
+{ @rightPad // c30
+(
+    // c31
+'\x00' // c32
+)
+    // c33
+char[ // c34
+8 ] Flags // c37
 ,
-    // c35
+    // c38
 zchar[
-    // c36
-8 // c37a
-  // c37b
-] top // c39a
-  // c39b
-, // c40a
-  // c40b
-repeat // c41
-zchar[ // c42a
-  // c42b
-2 ] // c44
-zs , // c46
+    // c39
+3
+    // c40
+]
+    // c41
+count
+    // c42
+, repeat // c44a
+  // c44b
+Order // c45
+, // c46a
+  // c46b
 } // c47
-")).
-Eval vm_compute in ("<<<M1506>>>" ++ check (runes_of_ascii "options {
-    stringy = zchar[0123456789]
-}
-
-MetaData charz {
-    zchar[42] calculatedFrom,
-    // `tick` ""quote"" 'q'
-    char[65535] trueish,
-    float64 roots `doc`,
-}
-
-packet calculatedFrom {
-    @calculatedFrom(""" ++ [128512]%N ++ runes_of_ascii """)
-    string crc `crlf
-    line`,
-    MetaDataX {
-        Packet @lengthOf(packetx) `{ , }`,// trailing space 
-        repeat trueish As,
-    },
-    int64 T,// `tick` ""quote"" 'q'
-    match uint8x as i64_ {
-        00 : _x,
-        65535 : Z9_,
-        ""1"" : u8x,
-        007 : Z9_,
-        /// triple
-        255 : matchKey,
-        ""1"" : crc,
-    },// " ++ [128512]%N ++ runes_of_ascii " emoji
-}// @lengthOf(")).
-Eval vm_compute in ("<<<M1934>>>" ++ check (runes_of_ascii "options {
-    lengthOf = true;
-    string_ = ""a\\"";
-}
-
-root packet zchar {
-    string_ {
-        match x as string_ {
-            //	t
-            0 : zchar,
-        },
-    },
-    @calculatedFrom(""CRC32"")
-    @tag(42)
-    repeat char[4294967296] u `say ""hi""`,
-    // 50% %s
-    @tag(3)
-    @leftPad( ' ' )
-    @tag(42)
-    match Header as A {
-        42 : Logon,
-    },
-    @tag(4294967296)
-    i64_ `doc`,
-}
-
-root packet x_y_z {
-    @calculatedFrom(""// no comment"")
-    @leftPad( )
-    @lengthOf(int)
-    //	t
-    u8x `" ++ [28040; 24687; 31867; 22411]%N ++ runes_of_ascii "`,
-}")).
-Eval vm_compute in ("<<<M1514>>>" ++ check (runes_of_ascii "
-packet
-
-_x{
-@calculatedFrom(
-
-""it's"" 
-	    /// triple
-// " ++ [27880; 37322]%N ++ runes_of_ascii "
-	)
-A rootA
+root
+    // c48
+packet // c49a
+  // c49b
+Party // c50
+{ // c51a
+  // c51b
+repeat // c52
+Logon // c53
 ,
+    // c54
+repeat // c55
+char[ 1 // c57
+]
+    // c58
+x , u32 // c61a
+  // c61b
+price
+    // c62
+, // c63
+u32
+    // c64
+Side2
+    // c65
+@lengthOf(
+    // c66
+Body
+    // c67
+) ,
+    // c69
+match price // c71a
+  // c71b
+as Body // c73a
+  // c73b
+{ // c74
+49 // c75
+: Order , // c78
+196 : // c80a
+  // c80b
+Logon // c81a
+  // c81b
+, } // c83a
+  // c83b
+, u32 // c85
+f1 // c86a
+  // c86b
+@calculatedFrom( ""CRC32""
+    // c88
+) // c89a
+  // c89b
+, // c90a
+  // c90b
+} // c91a
+  // c91b
+")).
+Eval vm_compute in ("<<<M1885>>>" ++ check (runes_of_ascii "MetaData Z9_ {
+    string roots,
+    repeatCount packetx `say ""hi""`,
+}
 
-    int8 Logon  `100% of %d`
-    , @lengthOf(
-As  )	a1 
-lengthOf , float32 zchar
+//
+// packet A { u8 x, }
+packet float {
+    repeat char[] metadata,
+    zchar[00] leftPad @calculatedFrom(""" ++ [233]%N ++ runes_of_ascii "t" ++ [233]%N ++ runes_of_ascii """) `" ++ [233]%N ++ runes_of_ascii "`,
+    string T @lengthOf(Pad) `doc`,
+    match f32a as crc {
+        ""x y"" : Foo,
+        // @lengthOf(
+        0 : _x,
+        [""1""] : As,
+        [
+            255, 1, """", ""1"", ""abc"",
+            """ ++ [233]%N ++ runes_of_ascii "t" ++ [233]%N ++ runes_of_ascii """, 10
+        ] : leftPad,
+        // @lengthOf(
+        ""{,}"" : a1,
+        4294967296 : body,
+        //
+    },
+    lengthOf @calculatedFrom(""\" ++ [233]%N ++ runes_of_ascii """),// packet A { u8 x, }
+    @calculatedFrom(""`tick`"")
+    @lengthOf(u)
+    @leftPad('0')
+    match o as BodyLength {
+        [
+            3, 1, ""a\\"", ""`tick`"", 1,
+            1
+        ] : asx,
+        [""a	b"", 255, 3, ""abc"", 65535] : asx,
+        10 : Z9_,
+        [10, ""CRC32"", 7] : roots,
+    },
+    // 50% %s
+    u16 a1,
+    @tag(00)
+    uint32 MetaDataX `u8 x,`,
+    @leftPad('\x00')
+    @rightPad()
+    i64 calculatedFrom,
+}")).
+Eval vm_compute in ("<<<M1648>>>" ++ check (runes_of_ascii "  // top
+	options// c0a
+// c0b
+	{
+LittleEndian
+    =  // c3
+	true 
+
+// c4
+;
+
+    }	// c6
+packet 
+    // c7
+Sub 
+{  // c9a
+    // c9b
+  	u8 
+a // c11
+    	, 
+	    // c12
+	@calculatedFrom(""CRC16""
+
+    )	// c15a
+	  // c15b
+u64 	 // c16a
+  	// c16b
+    SubSum	// c17
+
+	,  // c18a
+	// c18b
+	} 
+	    // c19
+  root
+    // c20
+packet	// c21a
+	// c21b
+	Frame // c22
+      {  
+      // c23
+	u16  // c24a
+  // c24b
+    	MsgType , 	 // c26
+  u16
+
+    BodyLen // c28a
+	// c28b
+      @lengthOf(
+
+    Body	// c30
+  ) // c31
+
+,  // c32a
+	// c32b
+
+Sub  // c33a
+// c33b
+Body
+
+    , 	 // c35
+	string 
+// c36
+
+  note
+    // c37
+, 
+    // c38
+	@calculatedFrom( 	 // c39
+	""CRC16""
+// c40
+	)// c41a
+// c41b
+u64
+
+    Checksum 
+// c43
+  ,
+    // c44
+u8 // c45a
+  	// c45b
+	  tail 	 // c46
+
+,  // c47
+  }	// c48a
+    // c48b
+")).
+Eval vm_compute in ("<<<M295>>>" ++ check (runes_of_ascii "root
+    packet
+charz { float32 matchKey @lengthOf(falsey ) ``,	@lengthOf( stringy )trueish
+    {uint16 f32a@lengthOf(Foo // 50% %s
+)
+// " ++ [27880; 37322]%N ++ runes_of_ascii "
+//	t
+, }  ,// a // b
+@leftPad( ) repeat char[ 1 ] asx
+, @calculatedFrom(	""" ++ [233]%N ++ runes_of_ascii "t" ++ [233]%N ++ runes_of_ascii """)/// triple
+uint8 Foo , char metadata`crlf
+line`,// " ++ [27880; 37322]%N ++ runes_of_ascii "
+repeat x_y_z
+`tab	here` , @tag(65535 )  o{ uint16 rootA
+`100% of %d` ,match
+charz as
+    tag { 10 : float , 1 // trailing space 
+:
+Foo, } ,repeat char[ 0 ] _x, repeat Packet,
+} , @calculatedFrom(
+""" ++ [128512]%N ++ runes_of_ascii """ )@rightPad
+(
+    )matchKey { char[] roots `crlf
+line` ,uint8 trueish @calculatedFrom( ""CRC32"") `doc`	,// " ++ [27880; 37322]%N ++ runes_of_ascii "
+int64 crc @calculatedFrom( """ ++ [128512]%N ++ runes_of_ascii """ ) , } , @tag( 7 // @lengthOf(
+) zchar[ 42
+] uint8x @lengthOf( tag ) ,
+    } // " ++ [27880; 37322]%N)).
+Eval vm_compute in ("<<<M201>>>" ++ check (runes_of_ascii "//x
+packet body {leftPad
+@calculatedFrom( // " ++ [128512]%N ++ runes_of_ascii " emoji
+""it's""
+)//x
+`line1
+line2` , char[ 3 ]	matchKey , char[] MetaDataX `a\`,
+    repeat
+string_ { tag
+// c
+// packet A { u8 x, }
+`crlf
+line` , repeat x	metadata
+, u @calculatedFrom( """ ++ [128512]%N ++ runes_of_ascii """ )
+    , } ,@tag( 10 )
+// c
+// packet A { u8 x, }
+@lengthOf( T
+)@tag( 7// `tick` ""quote"" 'q'
+)repeatCount
+    lengthOf `tab	here`
+    , @rightPad( '\x00') zchar[ 7
+] rootA
+,
+@lengthOf( len // 50% %s
+) match
+    body as matchKey { 0123456789: stringy
+//
+// packet A { u8 x, }
+, ""x y""
+:	As
+, """ ++ [233]%N ++ runes_of_ascii "t" ++ [233]%N ++ runes_of_ascii """ : charz, 4294967296 : leftPad
+    ,	""" ++ [233]%N ++ runes_of_ascii "t" ++ [233]%N ++ runes_of_ascii """
+    : leftPad
+    ,
+//
+// @lengthOf(
+},} //	t")).
+Eval vm_compute in ("<<<M1805>>>" ++ check (runes_of_ascii "packet _x {
+    zchar[65535] metadata `crlf
+    line`,
+    @calculatedFrom(""CRC32"")
+    Header `doc`,
+    match f32a as msg_type {
+        [""\n""] : charz,
+        0123456789 : pack,
+        [
+            ""packet"", """", ""`tick`"", ""CRC32"", ""\n"",
+            ""it's"", ""it's"", 4294967296
+        ] : charz,
+        /// triple
+        42 : leftPad,
+        [
+            255, 7, ""packet"", ""{,}"", ""\" ++ [233]%N ++ runes_of_ascii """,
+            ""1"", ""1""
+        ] : msg_type,
+        [""" ++ [128512]%N ++ runes_of_ascii """] : i64_,
+    },
+    repeat u8x body,
+}
+
+MetaData roots {
+    u8x packetx `two words`,// trailing space 
+}")).
+Eval vm_compute in ("<<<M327>>>" ++ check (runes_of_ascii "packet crc
+    { @calculatedFrom( ""x y""
+)
+char[] u8x ,
+    } root packet asx //
+{	float32
+    u8x
+`doc`
+// 50% %s
+// trailing space 
+,
+    }
+packet lengthOf
+{ repeat BodyLength{ match uint8x as matchKey {
+""\n"" : body , 00 :
+f32a ,""" ++ [233]%N ++ runes_of_ascii "t" ++ [233]%N ++ runes_of_ascii """ : rootA  , ""it's""
+:
+crc ,} , } ,	@tag( 42
+)
+//
+// " ++ [27880; 37322]%N ++ runes_of_ascii "
+roots Z9_ ,
+repeat leftPad
+{  u128 {len	lengthOf /// triple
+, options1 A // " ++ [27880; 37322]%N ++ runes_of_ascii "
+,
+// `tick` ""quote"" 'q'
+/// triple
+u128
+    Header , }
+    , } , @leftPad (
+' ') /// triple
+repeat int32 u8x ,
+    } // @lengthOf(")).
+Eval vm_compute in ("<<<M1595>>>" ++ check (runes_of_ascii "
+// top
+    MetaData// c0
+	msg_type	// c1
+  	{// c2
+int32 // c3
+    	As// c4
+  `crlf
+line`// c5
+  	, 	 // c6
+	MetaDataX  // c7
+
+x // c8
+	`a\`  // c9
+
+,	// c10
+int8  // c11
+    	_x 	 // c12
+  ,  // c13
+	char[]  // c14
+As // c15
+    `u8 x,`	// c16
+		, // c17
+
+zchar[// c18
+    3// c19
+    ]  // c20
+    uint8x// c21
+	,  // c22
+    As	// c23
+  Foo// c24
+    ,  // c25
+	} // c26
+
+  root  // c27
+
+packet 	 // c28
+    repeatCount 	 // c29
+    	{	// c30
+}	// c31
+")).
+Eval vm_compute in ("<<<M312>>>" ++ check (runes_of_ascii "packet  _x	{@calculatedFrom(
+""it's""
+/// triple
+// " ++ [27880; 37322]%N ++ runes_of_ascii "
+) A rootA , int8 Logon
+`100% of %d`	, @lengthOf( As ) a1
+lengthOf ,
+float32 zchar
 @calculatedFrom(""// no comment""
-	)	,
+)
+    ,} MetaData Packet
+{
+    packetx len
+// packet A { u8 x, }
+// 50% %s
+, u16	_x `100% of %d` , uint8 roots
+`{ , }`
+    ,
+falsey leftPad `say ""hi""`
+    ,
+} options// " ++ [128512]%N ++ runes_of_ascii " emoji
+{ A =	10  ;
+Pad
+=  char ; i8i8// 50% %s
+=
+string	x_y_z =
+    false// 50% %s
+}
+")).
+Eval vm_compute in ("<<<M1342>>>" ++ check (runes_of_ascii "
 
-    } MetaData Packet
+  packet
+Frame
 {
 
-packetx
-    len 
+    u8 HK, u8
+	BK , u8
 
-// packet A { u8 x, }
-    // 50% %s
+TK, match HK as Hdr { 1 :  HdrA
+,2
+    : 
+HdrB 
+,}
+	,  match	BK as	Body { 1 :
+BodyA,2
+	:
+
+    BodyB
+, } ,
+    match
+TK  as  Trl
+{1: TrlA
 	,
-	u16
-_x  `100% of %d`,
-
-    uint8
-
-    roots 
-`{ , }`
-	,falsey 
-leftPad	`say ""hi""`
+}
 
 , }
-	options	// " ++ [128512]%N ++ runes_of_ascii " emoji
-  {A	= 
-10	;
-Pad=char  ; i8i8 	 // 50% %s
-	=
-string x_y_z=
-	false // 50% %s
-  }
-")).
-Eval vm_compute in ("<<<M146>>>" ++ check (runes_of_ascii "
-root
-    packet rootA {@tag(
-    3
-    // " ++ [27880; 37322]%N ++ runes_of_ascii "
-    ) T {int64  pack @calculatedFrom(
-    ""a\\"")`tab	here`  ,
-char[
-    10
-    ] float , u // trailing space 
-{
-repeat
-    f32 chars,
-} ,	char[] f32a @lengthOf(zchar
-// `tick` ""quote"" 'q'
-// " ++ [128512]%N ++ runes_of_ascii " emoji
-) , } , @calculatedFrom(
-""CRC32""	)  u32 x_y_z @lengthOf(Header )
-`say ""hi""` ,@tag(65535 ) char
-Logon `line1
-line2`
-//
-// `tick` ""quote"" 'q'
-,  float32
-    zchar
-    `// not a comment`,}
-")).
-Eval vm_compute in ("<<<M1273>>>" ++ check (runes_of_ascii "// top
-packet // c0
-B // c1
-{
-    // c2
-u8 a // c4
+packet
+    HdrA
+
+{u8
+a
+
 ,
-    // c5
-} // c6a
-  // c6b
-root
-    // c7
-packet // c8a
-  // c8b
-P // c9a
-  // c9b
-{ u8 K // c12a
-  // c12b
-, // c13
-u64 // c14a
-  // c14b
-L // c15
-@lengthOf( // c16
-Body // c17
-) // c18
-, match // c20a
-  // c20b
-K // c21
-as // c22
-Body { // c24a
-  // c24b
-1 // c25a
-  // c25b
-: // c26
-B , // c28a
-  // c28b
-} , // c30a
-  // c30b
-} // c31a
-  // c31b
-")).
+    }
+
+packet
+
+    HdrB {	u16 b
+,
+    }	packet
+BodyA {	u32
+    c , 
+} 
+packet	BodyB{
+
+u64 d
+    , }
+packet TrlA
+{u8	e , 
+} root packet Msg
+
+    { Frame
+, 
+u8
+
+    x  ,	} ")).
 Eval vm_compute in ("<<<M215>>>" ++ check (runes_of_ascii "packet
 crc {	} root packet a1 { tag u ,  As @lengthOf( msg_type ) , repeat
 //x
@@ -826,490 +847,457 @@ char f32a
     @tag(
 255 )
 string body`` , }")).
-Eval vm_compute in ("<<<M1321>>>" ++ check (runes_of_ascii "
+Eval vm_compute in ("<<<M1393>>>" ++ check (runes_of_ascii "options { LittleEndian
 
-  packet A{	u8  a,}	packet
-B {
-u16  b ,}
+    =
 
-packet
+true
 
-C {  u32	c
-    ,
-} root
-packet M
-{	u16 
-Kc, u16 
-Kb,
-u16 Ka
-,
+;
+}  packet
 
-    match Kc  as
-	X {	9 :
-A , 
-10 
-:
+    Sub
 
-    B , 
-}  , 
-match
-
-Kb	as
-
-    Y{ 2  : C
+{ u8 
+a
 
     ,
-	1
-    :
-A ,}
+@calculatedFrom( ""CRC16""
+)  u64
+    SubSum 
 ,
-	match Ka
-
-    as Z { 1
-:
-
-B,  },
-A
-, B,  C
-
-,
-	}")).
-Eval vm_compute in ("<<<M68>>>" ++ check (runes_of_ascii "// a // b
-root packet
-    u { f64 //
-chars	@calculatedFrom( ""\n"" )
-, @lengthOf(msg_type//
-)x_y_z
-`
-`
-,
-// " ++ [27880; 37322]%N ++ runes_of_ascii "
-// `tick` ""quote"" 'q'
-repeat char[ 0123456789
-    ]f32a, repeat
-u8 u8x
-`u8 x,` , zchar[3	]
-// " ++ [128512]%N ++ runes_of_ascii " emoji
-// trailing space 
-x_y_z , x_y_z @lengthOf( len),}")).
-Eval vm_compute in ("<<<M99>>>" ++ check (runes_of_ascii "packet stringy	{ //x
-repeat char[ 0123456789
-    // c
-    ] trueish ,matchKey `100% of %d` ,
-    } options { x_y_z = //x
-false /// triple
-;// " ++ [128512]%N ++ runes_of_ascii " emoji
-Z9_ = 4294967296 chars =""packet"" // packet A { u8 x, }
-; Packet
-= ""it's"" ;// trailing space 
-}")).
-Eval vm_compute in ("<<<M412>>>" ++ check (runes_of_ascii "packet
-    asx { @calculatedFrom(
-""""  ) ) @tag( 255 )repeat
-// packet A { u8 x, }
-// trailing space 
-int16 u8x
-,
-@tag(
-    //
-    007 )
-    @tag( 0
-    /// triple
-    ) @tag( 1) u
-    @lengthOf( T ),
-// `tick` ""quote"" 'q'
-//x
-} // " ++ [128512]%N ++ runes_of_ascii " emoji")).
-Eval vm_compute in ("<<<M389>>>" ++ check (runes_of_ascii "asx
-    packet { @calculatedFrom(
-""""  ) @tag( 255 )repeat
-// packet A { u8 x, }
-// trailing space 
-int16 u8x
-,
-@tag(
-    //
-    007 )
-    @tag( 0
-    /// triple
-    ) @tag( 1) u
-    @lengthOf( T ),
-// `tick` ""quote"" 'q'
-//x
-} // " ++ [128512]%N ++ runes_of_ascii " emoji")).
-Eval vm_compute in ("<<<M518>>>" ++ check (runes_of_ascii "packet
-    asx { @calculatedFrom(
-""""  ) @tag( 255 )repeat
-// packet A { u8 x, }
-// trailing space 
-int16 u8x
-,
-@tag(
-    //
-    007 )
-    @tag( 0
-    /// triple
-    ) @tag( 1) u
-    @lengthOf( T )}
-// `tick` ""quote"" 'q'
-//x
-, // " ++ [128512]%N ++ runes_of_ascii " emoji")).
-Eval vm_compute in ("<<<M466>>>" ++ check (runes_of_ascii "packet
-    asx { @calculatedFrom(
-""""  ) @tag( 255 )repeat
-// packet A { u8 x, }
-// trailing space 
-int16 u8x
-,
-@tag(
-    //
-    007 )
-     0
-    /// triple
-    ) @tag( 1) u
-    @lengthOf( T ),
-// `tick` ""quote"" 'q'
-//x
-} // " ++ [128512]%N ++ runes_of_ascii " emoji")).
-Eval vm_compute in ("<<<M15>>>" ++ check (runes_of_ascii "options{ x
-    = ""x y"";}
-options/// triple
-{ i8i8
-= 4294967296 crc =255
-// " ++ [128512]%N ++ runes_of_ascii " emoji
-// 50% %s
-; string_=	char[
-//x
-// a // b
-255]u
-    =  '\x00';	BodyLength
-    ='0' } packet u {float32 pack // `tick` ""quote"" 'q'
-,
-}
-")).
-Eval vm_compute in ("<<<M520>>>" ++ check (runes_of_ascii "packet
-    asx { @calculatedFrom(
-""""  ) @tag( 255 )repeat
-// packet A { u8 x, }
-// trailing space 
-int16 u8x
-,
-@tag(
-    //
-    007 )
-    @tag( 0
-    /// triple
-    ) @tag( 1) u
-    @lengthOf( T )")).
-Eval vm_compute in ("<<<M505>>>" ++ check (runes_of_ascii "packet
-    asx { @calculatedFrom(
-""""  ) @tag( 255 )repeat
-// packet A { u8 x, }
-// trailing space 
-int16 u8x
-,
-@tag(
-    //
-    007 )
-    @tag( 0
-    /// triple
-    ) @tag( 1) u")).
-Eval vm_compute in ("<<<M582>>>" ++ check (runes_of_ascii "MetaData u
-    { } MetaData o
-{ float float uint8x
-`100% of %d` ,repeatCount u8x, string_ leftPad
-, i32
-    Foo , int64 x `two words` , calculatedFrom
-stringy `a\` ,
-}
-")).
-Eval vm_compute in ("<<<M572>>>" ++ check (runes_of_ascii "MetaData u
-    { } MetaData o o
-{ float uint8x
-`100% of %d` ,repeatCount u8x, string_ leftPad
-, i32
-    Foo , int64 x `two words` , calculatedFrom
-stringy `a\` ,
-}
-")).
-Eval vm_compute in ("<<<M549>>>" ++ check (runes_of_ascii "u MetaData
-    { } MetaData o
-{ float uint8x
-`100% of %d` ,repeatCount u8x, string_ leftPad
-, i32
-    Foo , int64 x `two words` , calculatedFrom
-stringy `a\` ,
-}
-")).
-Eval vm_compute in ("<<<M683>>>" ++ check (runes_of_ascii "MetaData u
-    { } MetaData o
-{ float uint8x
-`100% of %d` ,repeatCount u8x, string_ leftPad
-, i32
-    Foo , int64 x `two words` , calculatedFrom
-stringy `a\` }
-,
-")).
-Eval vm_compute in ("<<<M569>>>" ++ check (runes_of_ascii "MetaData u
-    { } char o
-{ float uint8x
-`100% of %d` ,repeatCount u8x, string_ leftPad
-, i32
-    Foo , int64 x `two words` , calculatedFrom
-stringy `a\` ,
-}
-")).
-Eval vm_compute in ("<<<M1687>>>" ++ check (runes_of_ascii "
-
-  options 
+} root	packet
+	Frame
 {
 
-}options
-{
-MetaDataX=  char
-
-    ;}
-
-    MetaData Pad	{	i8 metadata	,
-    string  stringy
-    ,
-int8
-
-    As
-	`{ , }`  // c
-  ,
-    }")).
-Eval vm_compute in ("<<<M1778>>>" ++ check (runes_of_ascii "  packet	A 
-{match
-	k
-
-    as
-n
-
-    {
-
-    [""a""
-
-    ,
-	22,
-
-    ""c c""  ,
-    4, 
-""e"", 
-66
-	,
-	""g""	, 
-8 ]:
-
-    B
-,  2
-    :	C }  ,	}
-
-")).
-Eval vm_compute in ("<<<M1615>>>" ++ check (runes_of_ascii "
-
-  packet
-A
-
-{	match k
-    as
-    n{
-	""\
-""  : B,
-	[
-
-    ""\
-""
-    ,
-1  ]
-	:
-	C ,
-[	1 , 
-2
-, 3
-, 4  ,	5
-
+u16	MsgType ,
+u16
+    BodyLen @lengthOf( Body
+	)
 ,
-	""\
-""
-    ] :D	, }
-,
+    Sub	Body  ,string note, 
+@calculatedFrom( ""CRC16""  )	u64
+	Checksum ,
+	u8 
+tail, 
 }
-
 ")).
-Eval vm_compute in ("<<<M665>>>" ++ check (runes_of_ascii "MetaData u
-    { } MetaData o
-{ float uint8x
-`100% of %d` ,repeatCount u8x, string_ leftPad
-, i32
-    Foo , int64 x `two words`")).
-Eval vm_compute in ("<<<M1692>>>" ++ check (runes_of_ascii "packet B {
+Eval vm_compute in ("<<<M1438>>>" ++ check (runes_of_ascii "packet MDSnapshotZZ {
     u8 a,
 }
 
+packet OrderACK {
+    u16 b,
+}
+
+packet HTTPServerInfo {
+    string s,
+}
+
+root packet FIXMsg {
+    u8 KType,
+    MDSnapshotZZ,
+    repeat OrderACK,
+    match KType as Body {
+        1 : HTTPServerInfo,
+        2 : OrderACK,
+    },
+}")).
+Eval vm_compute in ("<<<M1333>>>" ++ check (runes_of_ascii "packet
+P1 
+{
+    u8
+a
+    , } packet P2
+	{P1, }
+packet
+
+P3 { P2
+	, P1 , } packet
+P4 {	repeat
+P3	,  P2 ,
+
+    } root packet
+P5{  P4
+,
+    P3
+, P1
+
+    ,
+
+u8 K	,	match	K as
+
+Body { 4 :
+    P4
+	,
+
+3
+
+: P3 ,
+    2 : 
+P2
+	,  1
+:
+
+    P1 
+,
+},}
+")).
+Eval vm_compute in ("<<<M472>>>" ++ check (runes_of_ascii "packet
+    asx { @calculatedFrom(
+""""  ) @tag( 255 )repeat
+// packet A { u8 x, }
+// trailing space 
+int16 u8x
+,
+@tag(
+    //
+    007 )
+    @tag( 0 0
+    /// triple
+    ) @tag( 1) u
+    @lengthOf( T ),
+// `tick` ""quote"" 'q'
+//x
+} // " ++ [128512]%N ++ runes_of_ascii " emoji")).
+Eval vm_compute in ("<<<M428>>>" ++ check (runes_of_ascii "packet
+    asx { @calculatedFrom(
+""""  ) @tag( 255 repeat)
+// packet A { u8 x, }
+// trailing space 
+int16 u8x
+,
+@tag(
+    //
+    007 )
+    @tag( 0
+    /// triple
+    ) @tag( 1) u
+    @lengthOf( T ),
+// `tick` ""quote"" 'q'
+//x
+} // " ++ [128512]%N ++ runes_of_ascii " emoji")).
+Eval vm_compute in ("<<<M409>>>" ++ check (runes_of_ascii "packet
+    asx { @calculatedFrom(
+:  ) @tag( 255 )repeat
+// packet A { u8 x, }
+// trailing space 
+int16 u8x
+,
+@tag(
+    //
+    007 )
+    @tag( 0
+    /// triple
+    ) @tag( 1) u
+    @lengthOf( T ),
+// `tick` ""quote"" 'q'
+//x
+} // " ++ [128512]%N ++ runes_of_ascii " emoji")).
+Eval vm_compute in ("<<<M263>>>" ++ check (runes_of_ascii "MetaData i64_{int16 u128 ,}
+    MetaData	packetx
+{ char[]
+T, uint16 a1 `a\`
+, zchar[ 007 ] uint8x	, }
+root
+packet//	t
+A {
+@leftPad ( ' ' ) @tag( 255 // " ++ [27880; 37322]%N ++ runes_of_ascii "
+) @leftPad ( '\x00' ) repeat leftPad i64_
+    // `tick` ""quote"" 'q'
+    ,}")).
+Eval vm_compute in ("<<<M330>>>" ++ check (runes_of_ascii "packet uint8x { u64	f32a @calculatedFrom( ""`tick`"") ,
+match tag as
+    leftPad { """ ++ [233]%N ++ runes_of_ascii "t" ++ [233]%N ++ runes_of_ascii """: charz // 50% %s
+, } , @leftPad
+( ' ' )
+    int32
+x_y_z // a // b
+,}	options { matchKey =uint16; } // `tick` ""quote"" 'q'")).
+Eval vm_compute in ("<<<M1543>>>" ++ check (runes_of_ascii "// top
+packet B {
+    u8 a,
+    // c5
+}// c6a
+
+// c6b
 root packet P {
-    u8 K,
+    u8 K,// c13
     u8 L @lengthOf(Body),
     match K as Body {
         1 : B,
+        // c28a
+        // c28b
     },
 }")).
-Eval vm_compute in ("<<<M1971>>>" ++ check (runes_of_ascii "
-options
+Eval vm_compute in ("<<<M1554>>>" ++ check (runes_of_ascii "packet A {
+    match k as n {
+        ""\
+        "" : B,
+        [""\
+        "", 1] : C,
+        [
+            1, 2, 3, 4, 5,
+            ""\
+            ""
+        ] : D,
+    },
+}")).
+Eval vm_compute in ("<<<M1472>>>" ++ check (runes_of_ascii "MetaData u {
+}
 
-    {  x
-
-    =	""a\\"" ; }
-    MetaData u	{
-u8  falsey 
-,
-
-crc
-    zchar
-
-,
-    }
-    /// triple
- 
+MetaData o {
+    float uint8x `100% of %d`,
+    repeatCount u8x,
+    string_ leftPad,
+    i32 Foo,
+    int64 x `two words`,
+    calculatedFrom stringy,
+}")).
+Eval vm_compute in ("<<<M694>>>" ++ check (runes_of_ascii "MetaData u
+    { } MetaData o
+{ float uint8x
+`100% of %d` ' ,repeatCount u8x, string_ leftPad
+, i32
+    Foo , int64 x `two words` , calculatedFrom
+stringy `a\` ,
+}
 ")).
-Eval vm_compute in ("<<<M1232>>>" ++ check (runes_of_ascii "options { } options { MetaDataX = char ; } MetaData Pad { i8 metadata
-// c
-, string stringy , int8 As `{ , }` , }")).
-Eval vm_compute in ("<<<M650>>>" ++ check (runes_of_ascii "MetaData u
+Eval vm_compute in ("<<<M603>>>" ++ check (runes_of_ascii "MetaData u
+    { } MetaData o
+{ float uint8x
+`100% of %d` ,u8x repeatCount, string_ leftPad
+, i32
+    Foo , int64 x `two words` , calculatedFrom
+stringy `a\` ,
+}
+")).
+Eval vm_compute in ("<<<M651>>>" ++ check (runes_of_ascii "MetaData u
     { } MetaData o
 { float uint8x
 `100% of %d` ,repeatCount u8x, string_ leftPad
 , i32
-    Foo ,")).
-Eval vm_compute in ("<<<M1287>>>" ++ check (runes_of_ascii "options {
-    LittleEndian = true;
-}
-root packet P {
-    u16 a,
-    u32 Sum @calculatedFrom(""CRC32""),
+    Foo , int64  `two words` , calculatedFrom
+stringy `a\` ,
 }
 ")).
-Eval vm_compute in ("<<<M948>>>" ++ check (runes_of_ascii "packet A {
-    Inner {
-        u8 x `x
-`,
-        Deep {
-            u8 y `x
-`,
-        },
+Eval vm_compute in ("<<<M594>>>" ++ check (runes_of_ascii "MetaData u
+    { } MetaData o
+{ float uint8x
+zchar[ ,repeatCount u8x, string_ leftPad
+, i32
+    Foo , int64 x `two words` , calculatedFrom
+stringy `a\` ,
+}
+")).
+Eval vm_compute in ("<<<M1460>>>" ++ check (runes_of_ascii "
+
+  packet	A	{
+	match k
+
+as
+    n {
+
+[ ""a""  ,""bb""
+, 007, 
+""d"" 
+,  ""e""
+
+    ,  66  ,
+
+""g"" , 
+""h"" ,
+	9 
+,
+""j""	,
+""k""
+
+,12]
+    :
+	B, 2
+    : C	} ,
+}
+
+")).
+Eval vm_compute in ("<<<M113>>>" ++ check (runes_of_ascii "
+root packet trueish { } options
+{ Foo= 0123456789;
+    } root packet
+    A// @lengthOf(
+{ repeat
+i8i8 body// @lengthOf(
+`it's` ,} // 50% %s")).
+Eval vm_compute in ("<<<M1845>>>" ++ check (runes_of_ascii "options
+
+{
+	} // c
+		options  {
+MetaDataX =
+    char;	} MetaData Pad{ i8
+metadata,
+
+string stringy
+    ,
+int8
+    As`{ , }`
+, }
+")).
+Eval vm_compute in ("<<<M935>>>" ++ check (runes_of_ascii "packet A {
+    u16 len @lengthOf(body) `a
+    b
+  c`,
+    u32 crc @calculatedFrom(""CRC32"") `a
+    b
+  c`,
+    string body,
+}")).
+Eval vm_compute in ("<<<M992>>>" ++ check (runes_of_ascii "packet A {
+    match k as n {
+        ""%d%s"" : B,
+        [""%d%s"", 1] : C,
+        [1,2,3,4,5,""%d%s""] : D,
     },
 }")).
-Eval vm_compute in ("<<<M1843>>>" ++ check (runes_of_ascii "packet A {
-    B b `tab
-        	x`,
-    B `tab
-        	x`,
-    repeat B bs `tab
-        	x`,
+Eval vm_compute in ("<<<M1223>>>" ++ check (runes_of_ascii "options { } options { MetaDataX = char ; } MetaData // c
+Pad { i8 metadata , string stringy , int8 As `{ , }` , }")).
+Eval vm_compute in ("<<<M977>>>" ++ check (runes_of_ascii "packet A {
+    u16 len @lengthOf(body) `%%d%!`,
+    u32 crc @calculatedFrom(""CRC32"") `%%d%!`,
+    string body,
 }")).
-Eval vm_compute in ("<<<M868>>>" ++ check (runes_of_ascii "packet A {
+Eval vm_compute in ("<<<M445>>>" ++ check (runes_of_ascii "packet
+    asx { @calculatedFrom(
+""""  ) @tag( 255 )repeat
+// packet A { u8 x, }
+// trailing space 
+int16")).
+Eval vm_compute in ("<<<M894>>>" ++ check (runes_of_ascii "packet A {
   match k as n {
-    [1, ""bb"", 007, ""d"", 5, ""f"", 7, ""h"", 9] : B
+    [1, ""bb"", 007, ""d"", 5, ""f"", 7, ""h"", 9, ""j"", 11] : B
     2 : C
   },
 }")).
-Eval vm_compute in ("<<<M1867>>>" ++ check (runes_of_ascii "// `tick` ""quote"" 'q'
-options {
-    stringy = ""\" ++ [233]%N ++ runes_of_ascii """
-    float = """ ++ [233]%N ++ runes_of_ascii "t" ++ [233]%N ++ runes_of_ascii """
-    trueish = u8
-}")).
-Eval vm_compute in ("<<<M842>>>" ++ check (runes_of_ascii "packet A {
+Eval vm_compute in ("<<<M853>>>" ++ check (runes_of_ascii "packet A {
   match k as n {
-    [1, ""bb"", 007, ""d"", 5, ""f"", 7] : B
+    [""a"", ""bb"", ""c c"", ""d"", ""e"", ""f"", ""g"", ""h""] : B
     2 : C
   },
 }")).
-Eval vm_compute in ("<<<M832>>>" ++ check (runes_of_ascii "packet A {
+Eval vm_compute in ("<<<M867>>>" ++ check (runes_of_ascii "packet A {
   match k as n {
-    [1, 22, ""c c"", 4, 5, ""f""] : B,
+    [1, ""bb"", 007, ""d"", 5, ""f"", 7, ""h"", 9] : B,
     2 : C
   },
 }")).
-Eval vm_compute in ("<<<M101>>>" ++ check (runes_of_ascii "MetaData
-    u128
-    {matchKey i64_
-    , BodyLength T ,	msg_type body, }")).
-Eval vm_compute in ("<<<M610>>>" ++ check (runes_of_ascii "MetaData u
-    { } MetaData o
-{ float uint8x
-`100% of %d` ,repeatCount")).
-Eval vm_compute in ("<<<M1887>>>" ++ check (runes_of_ascii "// top
-options {
-    // c1
-    A = ""// no comment""
-    // c4
-}
-// c5")).
-Eval vm_compute in ("<<<M1861>>>" ++ check (runes_of_ascii "
-packet
+Eval vm_compute in ("<<<M826>>>" ++ check (runes_of_ascii "packet A {
+  match k as n {
+    [""a"", ""bb"", ""c c"", ""d"", ""e"", ""f""] : B,
+    2 : C
+  },
+}")).
+Eval vm_compute in ("<<<M1806>>>" ++ check (runes_of_ascii "options {
+    Packet = ""a\\""
+    Logon = true
+    f32a = true;
+    falsey = false;
+}")).
+Eval vm_compute in ("<<<M1446>>>" ++ check (runes_of_ascii "
+packet A
 
-A { 
+    {
+
 match
+k	as
 
-k
-	as n
-	{1  :  B	, 
-    // c
-
+n
+	{ [ 1
+,22  ,
+007  ] :	B  ,	2  :	C
 } ,
     } ")).
-Eval vm_compute in ("<<<M600>>>" ++ check (runes_of_ascii "MetaData u
-    { } MetaData o
-{ float uint8x
-`100% of %d`")).
+Eval vm_compute in ("<<<M808>>>" ++ check (runes_of_ascii "packet A {
+  match k as n {
+    [""a"", ""bb"", 007, ""d""] : B,
+    2 : C
+  },
+}")).
+Eval vm_compute in ("<<<M290>>>" ++ check (runes_of_ascii "MetaData u8x
+{ uint8
+    T`" ++ [233]%N ++ runes_of_ascii "`
+    ,	i32 MetaDataX,float32
+    crc ,
+}
+
+")).
+Eval vm_compute in ("<<<M1622>>>" ++ check (runes_of_ascii "
+
+  MetaData i64_
+    {
+	zchar[	// " ++ [27880; 37322]%N ++ runes_of_ascii "
+    0123456789
+]i8i8	`" ++ [233]%N ++ runes_of_ascii "` ,  }
+")).
+Eval vm_compute in ("<<<M36>>>" ++ check (runes_of_ascii "packet  chars { char[ 007 ]float @calculatedFrom( ""x y"" ),	}
+
+")).
+Eval vm_compute in ("<<<M1108>>>" ++ check (runes_of_ascii "packet A { // a
+ @tag(1) u8 x, // b
+ // c
+ @tag(2) u8 y, }")).
 Eval vm_compute in ("<<<M89>>>" ++ check (runes_of_ascii "packet _x {@tag(
 10	) float32
 roots `u8 x,`
     , }
 ")).
-Eval vm_compute in ("<<<M1535>>>" ++ check (runes_of_ascii "root 
-packet
-A
-
-{	u8 x `100% of %s %d %v`	, }
-
-")).
-Eval vm_compute in ("<<<M931>>>" ++ check (runes_of_ascii "MetaData M {
-    u8 x `
-`,
-    T t `
-`,
+Eval vm_compute in ("<<<M968>>>" ++ check (runes_of_ascii "root packet A {
+    u8 x `100% of %s %d %v`,
 }")).
-Eval vm_compute in ("<<<M1115>>>" ++ check (runes_of_ascii "packet A { u8 x,// a
-
-
-// b
-
- u8 y, }")).
-Eval vm_compute in ("<<<M736>>>" ++ check (runes_of_ascii "1WT[xl4v9M!>1/;cBK[4~4^pGS{F8PS~T'm")).
-Eval vm_compute in ("<<<M1872>>>" ++ check (runes_of_ascii "packet A {
-    u8 x `d" ++ [12]%N ++ runes_of_ascii "`,// c" ++ [12]%N ++ runes_of_ascii "
-}")).
-Eval vm_compute in ("<<<M939>>>" ++ check (runes_of_ascii "packet A {
-    u8 x `a
-
-b`,
-}")).
-Eval vm_compute in ("<<<M1463>>>" ++ check (runes_of_ascii "MetaData tag {
-    // c
-}")).
-Eval vm_compute in ("<<<M137>>>" ++ check (runes_of_ascii "MetaData f32a {
-    }
-")).
-Eval vm_compute in ("<<<M1080>>>" ++ check (runes_of_ascii "packet A {
+Eval vm_compute in ("<<<M1251>>>" ++ check (runes_of_ascii "root packet P {
+    char c,
+    u8 x,
 }
-// c x")).
-Eval vm_compute in ("<<<M1066>>>" ++ check (runes_of_ascii "// c" ++ [8203]%N ++ runes_of_ascii "
+")).
+Eval vm_compute in ("<<<M1961>>>" ++ check (runes_of_ascii "
+
+  // c
+
+MetaData
+
+tag
+
+    { 
+}
+")).
+Eval vm_compute in ("<<<M1640>>>" ++ check (runes_of_ascii "MetaData
+tag
+    {
+    } 	 // c
+ 
+")).
+Eval vm_compute in ("<<<M1560>>>" ++ check (runes_of_ascii "
+options{
+a
+	=  1// a
+		;
+
+}
+")).
+Eval vm_compute in ("<<<M1072>>>" ++ check (runes_of_ascii "packet A {
+ u8 x `d" ++ [65279]%N ++ runes_of_ascii "`, // c" ++ [65279]%N ++ runes_of_ascii "
+}")).
+Eval vm_compute in ("<<<M969>>>" ++ check (runes_of_ascii "packet A {
+    u8 x `%`,
+}")).
+Eval vm_compute in ("<<<M1150>>>" ++ check (runes_of_ascii "root packet a1 {
+// c
+}")).
+Eval vm_compute in ("<<<M1061>>>" ++ check (runes_of_ascii "// c 	
 packet A {
 }")).
-Eval vm_compute in ("<<<M1167>>>" ++ check (runes_of_ascii "packet // c
-x { }")).
-Eval vm_compute in ("<<<M1438>>>" ++ check (runes_of_ascii "packet A {
-}")).
-Eval vm_compute in ("<<<M1074>>>" ++ check (runes_of_ascii "// c" ++ [6158]%N)).
+Eval vm_compute in ("<<<M1065>>>" ++ check (runes_of_ascii "packet A {
+}
+// c" ++ [8203]%N)).
+Eval vm_compute in ("<<<M1101>>>" ++ check (runes_of_ascii "options { // a
+ }")).
+Eval vm_compute in ("<<<M751>>>" ++ check (runes_of_ascii "v" ++ [65533; 65533]%N ++ runes_of_ascii "]" ++ [65533]%N ++ runes_of_ascii "P" ++ [4; 65533]%N ++ runes_of_ascii "&" ++ [65533; 65533]%N ++ runes_of_ascii "R")).
+Eval vm_compute in ("<<<M1049>>>" ++ check (runes_of_ascii "// c" ++ [11]%N)).
